@@ -172,6 +172,64 @@ def wild_history(rng, ndesc_hint=2):
     return ops
 
 
+def script_of(s):
+    """Python mirror of Proofs/ScteBuild.v script_of: the setter history that builds the logical section s
+    (s must be api_buildable: no foreign descriptors, no splice_insert components, protocol/enc_alg/cw_index 0)"""
+    cmd = s[12]
+    ops = []
+    pts_time = 0
+    if cmd[0] == 1:
+        pts_time = cmd[1][0]
+        ops.append(K(5, [1, [K(0, 1), K(1, pts_time)]]))
+    elif cmd[0] == 2:
+        eid, body = cmd[1], cmd[2]
+        if not body:
+            cops = [K(2, eid), K(11, 0), K(4, 1)]
+        else:
+            out, mode, brk, up, an, ae = body[0]
+            prog = int(mode[0] in (0, 1)); imm = int(mode[0] in (0, 2))
+            cops = [K(2, eid), K(3, out), K(11, prog), K(12, imm)]
+            if mode[0] == 1:
+                pts_time = mode[1][0]
+                cops += [K(0, 1), K(1, pts_time)]
+            if brk:
+                cops += [K(5, 1), K(6, brk[0][1]), K(7, brk[0][0])]
+            cops += [K(8, up), K(9, an), K(10, ae)]
+        ops.append(K(5, [2, cops]))
+    epts = 0 if cmd[0] == 0 else (pts_time + s[8]) % L.T33
+    ops += [K(1, epts), K(0, s[10])]
+    ds = []
+    for d in s[13]:
+        if not d[2]:
+            ds.append([K(0, d[1]), K(2, 1)]); continue
+        comps, dur, restr, upid, ty, num, ex, sub = d[2][0]
+        o = [K(0, d[1]), K(11, 0 if comps else 1)]
+        if comps:
+            o.append(K(18, comps[0]))
+        if dur:
+            o += [K(3, 1), K(4, dur[0])]
+        if restr:
+            w, n, a, dv = restr[0]
+            o += [K(13, w), K(15, n), K(14, a), K(16, dv)]
+        else:
+            o.append(K(12, 1))
+        o += [K(5, upid[1]), K(6, upid[2])] if upid[0] == 0 else [K(5, 13), K(17, upid[1])]
+        o.append(K(1, ty))
+        if sub:
+            o += [K(19, 1), K(9, sub[0][0]), K(10, sub[0][1])]
+        o += [K(7, num), K(8, ex)]
+        ds.append(o)
+    ops.append(K(6, ds))
+    return ops
+
+
+def api_buildable(s):
+    c = s[12]
+    if c[0] == 2 and c[2] and c[2][0][1][0] in (2, 3) and len(c[2][0][1][1]) > 0:
+        return False
+    return all(d[0] == 0 for d in s[13]) and s[5] == 0 and s[7] == 0 and s[9] == 0 and not has_untimed(s)
+
+
 def has_untimed(s):
     """the logical signal has a splice_time() with time_specified_flag 0 (encoder writes 0x7E there)"""
     c = s[12]
@@ -196,6 +254,14 @@ def gen(rng, tier):
         _logical[line] = s
         kind = "reencode-canonical-untimed-component" if has_untimed(s) else "reencode-canonical"
         out.append(Case(line, kind=kind, theorem="C09_encode_decode_canonical"))
+    # (a') canonical sections the API can express, built by the setter history of C09_build_canonical
+    nb = 0
+    for sg, b in zip(sigs, data):
+        if api_buildable(sg) and nb < 250 * mult:
+            nb += 1
+            line = "scte.build [ ] " + fmt_val(script_of(sg))
+            _logical[line] = sg
+            out.append(Case(line, kind="build-canonical", theorem="C09_build_canonical"))
     # (b) histories from CreateSCTE35
     for _ in range(500 * mult):
         out.append(Case("scte.build [ ] " + fmt_val(clean_history(rng)), kind="clean-history", theorem="C09_encode_canonical"))
@@ -249,6 +315,13 @@ def oracle(c, real, model):
                 return "re-encoding a decoded canonical section does not reproduce it byte for byte"
             if L.crc32_mpeg2(r[1][0]) != 0:
                 return "CRC-32/MPEG-2 of the encoded section is not zero"
+        elif c.kind == "build-canonical":
+            r = parse_val(real)
+            sg = _logical.get(c.line)
+            if sg is not None and r[0] == 0:
+                want = L.py_ser(sg)[1 + len(sg[0]):]
+                if r[1][0] != want:
+                    return "the setter history of a canonical section does not encode to that section"
         elif c.kind == "known-mid-stale":
             r = parse_val(real)
             if r[0] == 0 and r[1][4][0] != 0:
